@@ -24,7 +24,7 @@
 (* header lookup, address = registered contract, VerifyProof of the        *)
 (* account key under the header's state root, RLP(claimed fields) = proven *)
 (* leaf, VerifyProof of the storage key under the claimed storage root,    *)
-(* proven word = Keccak(message).                                          *)
+(* proven value, left-padded to 32 bytes, = Keccak(message) (byte level).  *)
 (* PropC23 (monitor): Accept => the deposit is TRUE in the state of the    *)
 (* canonical block at that height and that block has >= Wait confirmations;*)
 (* an honest claim of a true, confirmed deposit is accepted.               *)
@@ -43,20 +43,31 @@ CONSTANTS Mode,      \* "chain": the handler looks the header up in the tracked 
           Wait,      \* BlocksToWait of the side chain (>= 1)
           ForkAt,    \* height of the stored non-canonical header
           DepositAt, \* first canonical height whose state contains the deposits
+          LeadZ,     \* number of leading zero bytes of Keccak("M") (0 or 1): the EVM stores a word with its leading zero
+                     \* bytes stripped, CheckProofResult pads the proven value back to 32 bytes
           Heights,   \* claimed heights to enumerate
           EmitOn
 
 VARIABLES row, done
 vars == <<row, done>>
 
-Nib == {0, 1}
+Nib == {0, 1, 2}
 Keys2 == {<<a, b>> : a \in Nib, b \in Nib}
 Suffixes(n) == IF n = 0 THEN {<<>>} ELSE IF n = 1 THEN {<<a>> : a \in Nib} ELSE Keys2
 
 (* leaves ******************************************************************)
 NilLeaf == [t |-> "nil"]
+\* a storage word is the byte string that the RLP leaf decodes to; bytes are small integers
 Word(v) == [t |-> "word", v |-> v]
-Keccak(m) == "k" \o m       \* injective on the message names used
+\* Keccak(m): 32 bytes, injective on the message names used; the hash of M starts with LeadZ zero bytes
+Keccak(m) == IF m = "M" THEN [i \in 1..32 |-> IF i <= LeadZ THEN 0 ELSE 100 + i] ELSE [i \in 1..32 |-> 200 + i]
+RECURSIVE Strip(_)
+Strip(b) == IF b # <<>> /\ b[1] = 0 THEN Strip(Tail(b)) ELSE b          \* as the EVM stores the word
+Pad32(b) == [i \in 1..32 |-> IF i <= 32 - Len(b) THEN 0 ELSE b[i - (32 - Len(b))]]
+Last(b, k) == SubSeq(b, Len(b) - k + 1, Len(b))
+\* CheckProofResult: the proven value, left-padded to 32 bytes, is the hash of the message (longer values never match)
+WordIs(leaf, m) == leaf.t = "word" /\ Len(leaf.v) <= 32 /\ Pad32(leaf.v) = Keccak(m)
+Stored(m) == Word(Strip(Keccak(m)))
 Msgs == {"M", "N"}           \* M: the deposit under test; N: another deposit that also happened
 
 (* tries *******************************************************************)
@@ -65,10 +76,19 @@ S1 == <<0, 0>>   \* holds Keccak(M) once the deposit happened
 S2 == <<0, 1>>   \* holds Keccak(N)
 S3 == <<1, 0>>   \* another slot that holds Keccak(M) as well (the code does not look at the slot)
 S4 == <<1, 1>>   \* never written
-StDep  == [k \in Keys2 |-> IF k = S1 THEN Word(Keccak("M")) ELSE IF k = S2 THEN Word(Keccak("N"))
-                           ELSE IF k = S3 THEN Word(Keccak("M")) ELSE NilLeaf]
-StPre  == [k \in Keys2 |-> IF k = S2 THEN Word(Keccak("N")) ELSE NilLeaf]
-StEvil == [k \in Keys2 |-> IF k = S1 THEN Word(Keccak("M")) ELSE IF k = S4 THEN Word("junk") ELSE NilLeaf]
+\* other slots of the registered contract whose (short or long) values merely END like Keccak(M) / end IN Keccak(M):
+S5 == <<0, 2>>   \* the last byte of Keccak(M)              (e.g. a flag slot)
+S6 == <<1, 2>>   \* the last 2 bytes
+S7 == <<2, 0>>   \* the last 31 bytes (this IS the stored form of Keccak(M) when LeadZ = 1)
+S8 == <<2, 1>>   \* 33 bytes: one more byte in front of Keccak(M)
+S9 == <<2, 2>>   \* the empty byte string
+Others(k) == IF k = S5 THEN Word(Last(Keccak("M"), 1)) ELSE IF k = S6 THEN Word(Last(Keccak("M"), 2))
+             ELSE IF k = S7 THEN Word(Last(Keccak("M"), 31)) ELSE IF k = S8 THEN Word(<<7>> \o Keccak("M"))
+             ELSE IF k = S9 THEN Word(<<>>) ELSE NilLeaf
+StDep  == [k \in Keys2 |-> IF k = S1 THEN Stored("M") ELSE IF k = S2 THEN Stored("N")
+                           ELSE IF k = S3 THEN Stored("M") ELSE Others(k)]
+StPre  == [k \in Keys2 |-> IF k = S2 THEN Stored("N") ELSE Others(k)]
+StEvil == [k \in Keys2 |-> IF k = S1 THEN Stored("M") ELSE IF k = S4 THEN Word(<<9, 9>>) ELSE NilLeaf]
 
 Acct(nonce, st, code) == [t |-> "acct", nonce |-> nonce, bal |-> 0, sroot |-> st, code |-> code]
 \* account keys
@@ -94,7 +114,7 @@ Child(nd, a) == [sfx \in Suffixes(DepthLeft(nd) - 1) |-> nd[<<a>> \o sfx]]
 \* nodes on the path of key k, down to the leaf or to the first empty child
 Path(T, k) == {NodeOf(T, SubSeq(k, 1, i)) : i \in 0..2} \ {nd \in {NodeOf(T, SubSeq(k, 1, i)) : i \in 0..2} : EmptyNode(nd)}
 Deepest(T, k) == CHOOSE nd \in Path(T, k) : \A o \in Path(T, k) : DepthLeft(nd) <= DepthLeft(o)
-Garbage == [sfx \in Suffixes(0) |-> Word("garbage")]
+Garbage == [sfx \in Suffixes(0) |-> Word(<<66>>)]
 
 \* trie.VerifyProof(rootHash, key, nodeSet): missing node -> error; path ends -> (nil, nil); else the leaf
 RECURSIVE Ver(_, _, _)
@@ -107,7 +127,8 @@ Ver(nd, sfx, nodes) ==
 (* claim descriptors and constructors **************************************)
 Worlds    == {"canon", "fork", "unknown"}
 AcctKinds == {"valid", "reordered", "garbage", "truncated", "otheracct", "otheraddr", "fields"}
-StorKinds == {"valid", "reordered", "garbage", "truncated", "slot2", "slot3", "absent"}
+StorKinds == {"valid", "reordered", "garbage", "truncated", "slot2", "slot3", "absent",
+              "sfx1", "sfx2", "sfx31", "long33", "empty"}
 Rows == [h : Heights, w : Worlds, ak : AcctKinds, sk : StorKinds, m : Msgs]
 
 \* the state the prover generates proofs from
@@ -124,7 +145,8 @@ Claim(r) ==
                   [] r.ak = "truncated" -> Path(S, ak) \ {Deepest(S, ak)}
                   [] OTHER              -> Path(S, ak)
         st   == flds.sroot                                                        \* storage trie the prover walks
-        slot == CASE r.sk = "slot2" -> S2 [] r.sk = "slot3" -> S3 [] r.sk = "absent" -> S4 [] OTHER -> S1
+        slot == CASE r.sk = "slot2" -> S2 [] r.sk = "slot3" -> S3 [] r.sk = "absent" -> S4 [] r.sk = "sfx1" -> S5
+                  [] r.sk = "sfx2" -> S6 [] r.sk = "sfx31" -> S7 [] r.sk = "long33" -> S8 [] r.sk = "empty" -> S9 [] OTHER -> S1
         sn   == CASE r.sk = "garbage"   -> Path(st, slot) \cup {Garbage}
                   [] r.sk = "truncated" -> Path(st, slot) \ {Deepest(st, slot)}
                   [] OTHER              -> Path(st, slot)
@@ -144,15 +166,15 @@ Accept(c) ==
     /\ LET sv == Ver(Root(c.flds.sroot), c.slot, c.snodes)
        IN /\ sv.ok
           /\ sv.val # NilLeaf                       \* "verifyMerkleProof failed" on a proven-absent key
-          /\ sv.val = Word(Keccak(c.m))             \* CheckProofResult
+          /\ WordIs(sv.val, c.m)                   \* CheckProofResult
 
 (* monitor ********************************************************************)
 \* the deposit of message m is in the registered contract's storage in the canonical state at height h
-TrueAt(h, m) == (h \in G0..Best \/ (Mode = "header" /\ h >= G0)) /\ \E s \in Keys2 : CanonState(h)[KCcm].sroot[s] = Word(Keccak(m))
+TrueAt(h, m) == (h \in G0..Best \/ (Mode = "header" /\ h >= G0)) /\ \E s \in Keys2 : WordIs(CanonState(h)[KCcm].sroot[s], m)
 Honest(r) == /\ r.w = "canon" /\ (r.h \in G0..Best \/ (Mode = "header" /\ r.h >= G0))
              /\ r.ak \in {"valid", "reordered", "garbage"}
-             /\ r.sk \in {"valid", "reordered", "garbage", "slot2", "slot3"}
-             /\ CanonState(r.h)[KCcm].sroot[Claim(r).slot] = Word(Keccak(r.m))
+             /\ r.sk \notin {"truncated", "absent"}
+             /\ WordIs(CanonState(r.h)[KCcm].sroot[Claim(r).slot], r.m)
 Sound(r)    == Accept(Claim(r)) => (Confirmed(r.h) /\ TrueAt(r.h, r.m) /\ (Mode = "header" => r.w = "canon"))
 Complete(r) == (Honest(r) /\ Confirmed(r.h)) => Accept(Claim(r))
 PropC23 == done => (Sound(row) /\ Complete(row))
